@@ -107,4 +107,98 @@ theorem range_iff (n d : K) (hd : 0 < d) : ¬ (n < 0 ∨ n > d) ↔ (0 ≤ n / d
     rw [not_le] at hn
     exact absurd h1 (not_le.mpr (div_neg_of_neg_of_pos hn hd))
 
+/-- a line through a non-corner point of the unit square, with direction `(α, β)`, `α ≠ 0`,
+`β > 0`, contains another point of the square -/
+theorem exists_other (t u α β : K) (hβ : 0 < β) (hα : α ≠ 0) (ht0 : 0 ≤ t) (ht1 : t ≤ 1)
+    (hu0 : 0 ≤ u) (hu1 : u ≤ 1) (hnc : ¬ ((t = 0 ∨ t = 1) ∧ (u = 0 ∨ u = 1))) :
+    ∃ ε : K, ε ≠ 0 ∧ 0 ≤ t + ε * α ∧ t + ε * α ≤ 1 ∧ 0 ≤ u + ε * β ∧ u + ε * β ≤ 1 := by
+  have hA : 0 < |α| + β := add_pos (abs_pos.mpr hα) hβ
+  have hapos : 0 < |α| := abs_pos.mpr hα
+  -- x = |α|/A, y = β/A
+  obtain ⟨x, y, hx0, hy0, hx1, hy1, hxA, hyA⟩ : ∃ x y : K, 0 < x ∧ 0 < y ∧ x ≤ 1 ∧ y ≤ 1
+      ∧ x * (|α| + β) = |α| ∧ y * (|α| + β) = β := by
+    refine ⟨|α| / (|α| + β), β / (|α| + β), div_pos hapos hA, div_pos hβ hA, ?_, ?_, div_mul_cancel₀ _ hA.ne', div_mul_cancel₀ _ hA.ne'⟩
+    · rw [div_le_one hA]; linarith
+    · rw [div_le_one hA]; linarith
+  -- generic step: for a room ρ > 0 and a sign σ (= ±1), ε = σ ρ / A · (sign α on the t side)
+  have step : ∀ (ρ σ : K), 0 < ρ → (σ = 1 ∨ σ = -1) →
+      (0 ≤ t + σ * ρ * x ∧ t + σ * ρ * x ≤ 1) →
+      (0 ≤ u + σ * Sgn.signum α * ρ * y ∧ u + σ * Sgn.signum α * ρ * y ≤ 1) →
+      ∃ ε : K, ε ≠ 0 ∧ 0 ≤ t + ε * α ∧ t + ε * α ≤ 1 ∧ 0 ≤ u + ε * β ∧ u + ε * β ≤ 1 := by
+    intro ρ σ hρ hσ htb hub
+    refine ⟨σ * Sgn.signum α * ρ / (|α| + β), ?_, ?_⟩
+    · have hs : Sgn.signum α ≠ 0 := by
+        intro h; have := sgn_sq α; rw [h] at this; simp at this
+      have hσ0 : σ ≠ 0 := by rcases hσ with h | h <;> rw [h] <;> norm_num
+      exact div_ne_zero (mul_ne_zero (mul_ne_zero hσ0 hs) hρ.ne') hA.ne'
+    · have e1 : σ * Sgn.signum α * ρ / (|α| + β) * α = σ * ρ * x := by
+        rw [div_mul_eq_mul_div, div_eq_iff hA.ne']
+        have := sgn_mul_self α
+        linear_combination (σ * ρ) * this - (σ * ρ) * hxA
+      have e2 : σ * Sgn.signum α * ρ / (|α| + β) * β = σ * Sgn.signum α * ρ * y := by
+        rw [div_mul_eq_mul_div, div_eq_iff hA.ne']
+        linear_combination (-(σ * Sgn.signum α * ρ)) * hyA
+      rw [e1, e2]
+      exact ⟨htb.1, htb.2, hub.1, hub.2⟩
+  have hsg : Sgn.signum α = 1 ∨ Sgn.signum α = -1 := by
+    rcases lt_or_ge α 0 with h | h
+    · right; exact sgn_neg h
+    · left; exact sgn_nonneg h
+  by_cases hui : 0 < u ∧ u < 1
+  · -- u interior: move t inward
+    obtain ⟨hu0', hu1'⟩ := hui
+    have hq : 0 < u * (1 - u) := mul_pos hu0' (by linarith)
+    have hqu : u * (1 - u) ≤ u := by nlinarith
+    have hqu' : u * (1 - u) ≤ 1 - u := by nlinarith
+    by_cases htl : t < 1
+    · -- ρ = (1-t) u (1-u), σ = +1
+      have hρ : 0 < (1 - t) * (u * (1 - u)) := mul_pos (by linarith) hq
+      have hρt : (1 - t) * (u * (1 - u)) ≤ 1 - t := by nlinarith
+      have hρu : (1 - t) * (u * (1 - u)) ≤ u * (1 - u) := by nlinarith
+      have hx : 0 ≤ (1 - t) * (u * (1 - u)) * x ∧ (1 - t) * (u * (1 - u)) * x ≤ (1 - t) * (u * (1 - u)) :=
+        ⟨by positivity, by nlinarith⟩
+      have hy : 0 ≤ (1 - t) * (u * (1 - u)) * y ∧ (1 - t) * (u * (1 - u)) * y ≤ (1 - t) * (u * (1 - u)) :=
+        ⟨by positivity, by nlinarith⟩
+      apply step _ 1 hρ (Or.inl rfl)
+      · constructor <;> linarith [hx.1, hx.2]
+      · rcases hsg with h | h <;> rw [h] <;> constructor <;> linarith [hy.1, hy.2]
+    · have ht : t = 1 := le_antisymm ht1 (not_lt.mp htl)
+      have hρ : 0 < u * (1 - u) := hq
+      have hx : 0 ≤ u * (1 - u) * x ∧ u * (1 - u) * x ≤ u * (1 - u) := ⟨by positivity, by nlinarith⟩
+      have hy : 0 ≤ u * (1 - u) * y ∧ u * (1 - u) * y ≤ u * (1 - u) := ⟨by positivity, by nlinarith⟩
+      have hq1 : u * (1 - u) ≤ 1 := by nlinarith
+      apply step _ (-1) hρ (Or.inr rfl)
+      · rw [ht]; constructor <;> linarith [hx.1, hx.2]
+      · rcases hsg with h | h <;> rw [h] <;> constructor <;> linarith [hy.1, hy.2]
+  · -- u ∈ {0,1}, so t is interior
+    have hu : u = 0 ∨ u = 1 := by
+      by_contra h
+      exact hui ⟨lt_of_le_of_ne hu0 (fun e => h (Or.inl e.symm)), lt_of_le_of_ne hu1 (fun e => h (Or.inr e))⟩
+    have hti : 0 < t ∧ t < 1 := by
+      constructor
+      · exact lt_of_le_of_ne ht0 (fun h => hnc ⟨Or.inl h.symm, hu⟩)
+      · exact lt_of_le_of_ne ht1 (fun h => hnc ⟨Or.inr h, hu⟩)
+    obtain ⟨ht0', ht1'⟩ := hti
+    have hq : 0 < t * (1 - t) := mul_pos ht0' (by linarith)
+    have hqt : t * (1 - t) ≤ t := by nlinarith
+    have hqt' : t * (1 - t) ≤ 1 - t := by nlinarith
+    have hq1 : t * (1 - t) ≤ 1 := by nlinarith
+    have hx : 0 ≤ t * (1 - t) * x ∧ t * (1 - t) * x ≤ t * (1 - t) := ⟨by positivity, by nlinarith⟩
+    have hy : 0 ≤ t * (1 - t) * y ∧ t * (1 - t) * y ≤ t * (1 - t) := ⟨by positivity, by nlinarith⟩
+    -- need σ * sgn α = +1 if u = 0, -1 if u = 1
+    rcases hu with hu | hu
+    · rcases hsg with h | h
+      · apply step _ 1 hq (Or.inl rfl)
+        · constructor <;> linarith [hx.1, hx.2]
+        · rw [h, hu]; constructor <;> linarith [hy.1, hy.2]
+      · apply step _ (-1) hq (Or.inr rfl)
+        · constructor <;> linarith [hx.1, hx.2]
+        · rw [h, hu]; constructor <;> linarith [hy.1, hy.2]
+    · rcases hsg with h | h
+      · apply step _ (-1) hq (Or.inr rfl)
+        · constructor <;> linarith [hx.1, hx.2]
+        · rw [h, hu]; constructor <;> linarith [hy.1, hy.2]
+      · apply step _ 1 hq (Or.inl rfl)
+        · constructor <;> linarith [hx.1, hx.2]
+        · rw [h, hu]; constructor <;> linarith [hy.1, hy.2]
 end Lyon.Ix
